@@ -1343,7 +1343,11 @@ func c43RunLvalueCase(l *vk.Local, w *c43Worker, order int64, head string, word 
 		r := w.evalCached("put " + ins)
 		vs, allStr := c43Strs(r.outs)
 		if r.pan != "" || r.err != nil || !allStr || len(vs) != 1 {
-			c43Report(order, "insert-not-one-string-word:lvalue", fmt.Sprintf("%s: candidate %s inserts %q, which as a word evaluates to %q, error %v %s", desc, shown, ins, r.outs, r.err, r.pan), replay)
+			k := "lvalue"
+			if strings.HasPrefix(ins, "~") {
+				k = "lvalue-leading-tilde" // a bare word starting with ~ is a home directory, not a name
+			}
+			c43Report(order, "insert-not-one-string-word:"+k, fmt.Sprintf("%s: candidate %s inserts %q, which as a word evaluates to %q, error %v %s", desc, shown, ins, r.outs, r.err, r.pan), replay)
 			continue
 		}
 		name := strings.TrimPrefix(vs[0], "@")
@@ -1673,6 +1677,9 @@ func TestVerifC43(t *testing.T) {
 			vwords = append(vwords, c43NameWords(p)...)
 		}
 		var vcnt, lcnt, ccnt atomic.Int64
+		if !strings.Contains(parts, "V") {
+			vwords = nil
+		}
 		c.Parallel(len(vwords), func(l *vk.Local, i int) {
 			w := c43GetWorker(c, l, setup)
 			k := int64(0)
@@ -1715,6 +1722,9 @@ func TestVerifC43(t *testing.T) {
 					cwords = append(cwords, nw)
 				}
 			}
+		}
+		if !strings.Contains(parts, "C") {
+			cwords = nil
 		}
 		c.Parallel(len(cwords), func(l *vk.Local, i int) {
 			w := c43GetWorker(c, l, setup)
